@@ -271,6 +271,15 @@ class Sim:
                 self.activity += 1
                 self._switch_to(t)
                 continue
+            spinners = [t for t in self.threads if t.state == SPIN]
+            if spinners and spin_idle < 3 * len(spinners):
+                # give each spinner a turn: its flag may have changed. A busy-waiting thread is runnable in reality, so it
+                # gets its turns BEFORE parked (preempted) threads are resumed - otherwise a preempted thread could never be
+                # overtaken by a thread that has to pass a busy-wait (e.g. TcpConnection._start_receiver)
+                t = spinners[spin_idle % len(spinners)]
+                spin_idle += 1
+                self._switch_to(t)
+                continue
             parked = [t for t in self.threads if t.state == PARKED]
             if parked:
                 for t in parked:
@@ -278,15 +287,8 @@ class Sim:
                 continue
             if self._expire():
                 continue
-            spinners = [t for t in self.threads if t.state == SPIN]
             nd = self._next_deadline()
             adv = may_advance()
-            if spinners and spin_idle < 3 * len(spinners):
-                # give each spinner a turn: its flag may have changed
-                t = spinners[spin_idle % len(spinners)]
-                spin_idle += 1
-                self._switch_to(t)
-                continue
             if adv and nd is not None and (limit is None or nd <= limit):
                 self.now = max(self.now, nd)
                 spin_idle = 0
